@@ -90,7 +90,7 @@ def main(ctx):
             files.append(cf)
             cmds.append("%s meta --seed %d --count %d --tier %s --out %s --shard %d/%d%s"
                         % (h, (ctx.seed * 1000003 + s * 101 + (29 if tag == "small" else 31)) % (2 ** 62), per, ctx.tier, cf, s, NCPU, extra))
-        res = run_parallel(cmds, 800)
+        res = run_parallel(cmds, 2400)
         for s, cf in enumerate(files):
             if res[s][0] != 0 or not os.path.exists(cf):
                 ctx.violation("harness failed: %s" % res[s][1][-400:], "command: %s\n" % cmds[s], found_input=False)
